@@ -1,5 +1,6 @@
 (* C02 — per-case judge.  One case = one hostile byte stream fed to codec.NewDecoder(...).Decode() until the
-   first call that does not return a packet; zlib is instantiated from the per-case inflate oracle. *)
+   first call that does not return a packet; zlib is instantiated from the per-case inflate oracle.
+   impl_ = today's decoder.go. *)
 From Coq Require Import List NArith ZArith Bool.
 From Verif Require Import Base.Hex Base.Verdict Base.VarInt Model.Codec Check.C01.
 Import ListNotations.
@@ -10,7 +11,6 @@ Record case := mk {
   serverbound : bool;
   stream : bytes;
   itbl : list (bytes * zres);           (* inflate oracle: zlib body -> (all output, ended cleanly) *)
-  ltbl : list (bytes * N * bool);       (* (body, claimed) -> Close() silent after reading exactly claimed bytes *)
   obs : list bytes;                     (* payloads returned by successive Decode calls *)
   obs_term : oterm                      (* how the first unsuccessful call ended *)
 }.
@@ -23,27 +23,21 @@ Definition out_eqb (a b : outcome) : bool := beq_list (fst a) (fst b) && oterm_e
 Definition blur (t : oterm) : oterm := match t with OFrameTooLarge => OErr | x => x end.
 Definition out_agree (a b : outcome) : bool := beq_list (fst a) (fst b) && oterm_eqb (blur (snd a)) (blur (snd b)).
 
+(* Both findings of this property are repaired in /repo (C02-1 commit 7de81ff, C02-2 commit 9119697), so there
+   is no VKnown verdict any more: a recurrence of either behaviour on a stream with minimal prefixes falsifies the
+   property predicate (VViolation); on other streams it is a model/implementation disagreement (VMismatch). *)
 Definition judge (c : case) : verdict :=
   let I := inflate_of (itbl c) in
-  let L := lazy_of (ltbl c) in
+  let L := fun (_ : bytes) (_ : N) => false in   (* consulted by the pre-fix variant only *)
   let cf := mkcfg (thr c) (dir_of (serverbound c)) in
-  let run := fun rv f1 f2 =>
-    let '(ps, t) := decode_stream_flat (decode_frame_with I L rv f1 f2) cf (stream c) in (ps, coarse t) in
-  let impl := run read_varint false false in
-  let g1 := run read_varint true false in
-  let g2 := run read_varint false true in
-  let fx := run read_varint true true in
-  let vel := run read_varint21 true true in
+  let run := fun df =>
+    let '(ps, t) := decode_stream_flat df cf (stream c) in (ps, coarse t) in
+  let impl := run (impl_decode_frame I L) in
+  let vel := run (velocity_decode_frame I L) in
   let o : outcome := (obs c, obs_term c) in
   let bound := Z.max MAXFRAME (cap (c_dir cf)) in
   let sized := forallb (fun p => (Z.of_N (len p) <=? bound)%Z) (obs c) in
-  let modelled := out_eqb o impl || out_eqb o g1 || out_eqb o g2 || out_eqb o fx in
   if negb sized then VViolation
   else if minimal_stream I L cf (stream c) then
-    if out_agree o vel then (if modelled then VOk else VMismatch)
-    else if out_eqb o impl then
-      (if negb (out_eqb impl g1) then VKnown 1 else if negb (out_eqb impl g2) then VKnown 2 else VViolation)
-    else if out_eqb o g1 && negb (out_eqb g1 fx) then VKnown 2
-    else if out_eqb o g2 && negb (out_eqb g2 fx) then VKnown 1
-    else VViolation
-  else if modelled then VOk else VMismatch.
+    if out_agree o vel then (if out_eqb o impl then VOk else VMismatch) else VViolation
+  else if out_eqb o impl then VOk else VMismatch.
